@@ -11,7 +11,8 @@ from ..harness import Sub, Violation, run_world, crash_is_violation
 from ..oracles import globalarr as ga
 
 PROPERTY = "C02"
-HANG_SECONDS = 40.0
+HANG_SECONDS = 1200.0
+LINE_BUDGET = 5000000000
 RULE = ("(box) exhaustive: every 1<=p<=n<=N through the real Layout constructor for every rank coordinate, "
         "checked against pure tiling predicates (starts[0]=0, ends[r]=starts[r+1], last end=n, lengths in "
         "{floor(n/p),ceil(n/p)} with exactly n mod p long ones, shape/size/max_block_shape/mpi_starts/"
